@@ -1,6 +1,8 @@
 --------------------------- MODULE FragmentsPkg_MC ---------------------------
 EXTENDS FragmentsPkg, TLCExt
 NoDeviations == {}
+AllPerms == Perms(Frags)
+TwoPerms == {[f \in Frags |-> f], [f \in Frags |-> NF + 1 - f]}
 PreFix == {"exclude_all_unpacked", "no_dep_closure"}
 SetIter == {"set_iteration"}
 OldClosure == {"old_closure"}
